@@ -789,6 +789,7 @@ def histories(ctx):
         P = random_policies(rng)
         plan.append((P, gen_history_live(ctx, rng, P, n_steps), 'seeded-%d' % k))
     reported = set()
+    shrunk = 0
     for P, steps, label in plan:
         case, viol, log = run_history(ctx, P, steps, want_case=True, count=True)
         cases.append(case)
@@ -800,7 +801,11 @@ def histories(ctx):
                 continue
             reported.add(key)
             known = any(f.get('status') == 'known' and all(k in sig and sig[k] == v for k, v in f['signature'].items()) for f in ctx.findings)
-            wsteps = steps[:si + 1] if known else shrink(ctx, P, steps, sig, si)
+            if known or shrunk >= 2:
+                wsteps = steps[:si + 1]
+            else:
+                shrunk += 1
+                wsteps = shrink(ctx, P, steps, sig, si, budget=30)
             ctx.violation(sig, {'kind': 'history', 'policies': plain_policies(P), 'steps': wsteps, 'detail': detail,
                                 'how_to_replay': 'bin/check C03 --replay <this file>: fresh engine with these policies, the steps in order as the given identities'},
                           what)
